@@ -63,26 +63,27 @@ Example T_C08_xml_example :
 Proof. split; reflexivity. Qed.
 Print Assumptions T_C08_xml_example.
 
-(* ---------------------------------------------------------------- the adapter: Finalize() and a failing writer (F26) *)
+(* ---------------------------------------------------------------- the adapter: Finalize() and a failing writer *)
 
-(* full strength: whenever the RapidJSON writer fails on the DOM, Finalize() reports it (instead of handing out what was
-   written so far).  The model of the current code falsifies it: *)
-Theorem T_C08_finalize_checks_writer_refuted : exists d, ~ finalize_reports finalize_json d.
-Proof. exact finalize_refuted. Qed.
-Print Assumptions T_C08_finalize_checks_writer_refuted.
-
-(* ... exactly through non-finite doubles: a DOM without NaN / Inf is never refused by the writer *)
-Theorem T_C08_finalize_checks_writer_outside : forall d, has_nonfinite d = false -> finalize_reports finalize_json d.
-Proof. exact finalize_outside. Qed.
-Print Assumptions T_C08_finalize_checks_writer_outside.
-
-(* the suggested repair (check the result of Accept and throw) satisfies the full statement *)
-Theorem T_C08_finalize_checks_writer_repaired : forall d, finalize_reports finalize_json_checked d.
+(* full strength: whenever the RapidJSON writer fails on the DOM, Finalize() reports it (an exception) instead of handing
+   out what was written so far.  Holds of the model of the current code (CheckWriterResult, commit e6b2746) *)
+Theorem T_C08_finalize_checks_writer : forall d, finalize_reports finalize_json d.
 Proof. exact finalize_checked_reports. Qed.
-Print Assumptions T_C08_finalize_checks_writer_repaired.
+Print Assumptions T_C08_finalize_checks_writer.
 
-(* what the current code hands out for vector<double>{1, NaN, 2}: the three tokens "[", 1.0, "," *)
-Example T_C08_finalize_example : finalize_json f26_witness = FDoc [WTok TLBrack; WDbl 0x3FF0000000000000; WTok TComma].
+(* for the record, the code before that repair (finding F26, fixed): the statement was false, exactly through
+   non-finite doubles *)
+Theorem T_C08_finalize_unchecked_refuted : exists d, ~ finalize_reports finalize_json_unchecked d.
+Proof. exact finalize_unchecked_refuted. Qed.
+Print Assumptions T_C08_finalize_unchecked_refuted.
+
+Theorem T_C08_finalize_unchecked_outside : forall d, has_nonfinite d = false -> finalize_reports finalize_json_unchecked d.
+Proof. exact finalize_unchecked_outside. Qed.
+Print Assumptions T_C08_finalize_unchecked_outside.
+
+(* vector<double>{1, NaN, 2}: an exception now; the three tokens "[", 1.0, "," were handed out before *)
+Example T_C08_finalize_example : finalize_json f26_witness = FError /\
+  finalize_json_unchecked f26_witness = FDoc [WTok TLBrack; WDbl 0x3FF0000000000000; WTok TComma].
 Proof. exact f26_document. Qed.
 Print Assumptions T_C08_finalize_example.
 
